@@ -10,8 +10,9 @@
    [rawkeys d db] = the non-empty "table:key" names of type d in db, ascending.
    Reverse scans are stated from an arbitrary start cursor: they return what lies strictly below it (with the
    empty cursor: nothing — the behaviour the repository's own tests fix; DESIGN.md S1). *)
-From ZV Require Import Common.Bytes Scan.Consts Scan.Model Scan.ProofsOrder Scan.ProofsIter Scan.ProofsRange Scan.Proofs.
-From Coq Require Import Sorting.Sorted ZArith.
+From ZV Require Import Common.Bytes Scan.Consts Scan.Model Scan.ProofsOrder Scan.ProofsIter Scan.ProofsRange Scan.Proofs
+     Scan.ProofsMerge Scan.ProofsCluster.
+From Coq Require Import Sorting.Sorted ZArith Permutation.
 Open Scope N_scope.
 
 (* (1) HSCAN / SSCAN / ZSCAN, forwards: for every store, collection, start cursor, COUNT >= 1 and MATCH
@@ -230,6 +231,48 @@ Theorem C13_key_scan_reverse_default_count :
 Proof. exact key_scan_rev0. Qed.
 Print Assumptions C13_key_scan_reverse_default_count.
 
+(* (10) SCAN/ADVSCAN (+REV) over all partitions of a namespace (server/scan_merge.go: COUNT divided among the
+   partitions a request goes to, one cursor per unfinished partition, pages concatenated): for every family of
+   partition stores, every COUNT (any integer, or none), every start cursor (the same for every partition) and
+   both directions, the merged iteration ends with the empty cursor and its pages contain, up to the
+   interleaving of the partitions, exactly the per-partition results — every matching key of the table exactly
+   once. (Order within a partition: (3)/(4); the order across partitions is Go map order in the code and is
+   not claimed.) The number of requests is at most the sum over the partitions of (result size + 1). *)
+Theorem C13_cluster_scan :
+  forall (compile : bytes -> option (bytes -> bool)) (dbs : list (list bytes)) (d : dtype) (table pat : bytes)
+         (m : bytes -> bool),
+    (forall p, (p < length dbs)%nat ->
+       sorted_db (nth p dbs []) /\
+       Forall (fun raw => extract_table raw <> None) (rawkeys d (nth p dbs [])) /\
+       ~ In (type_prefix d ++ wrap_cursor table []) (nth p dbs [])) ->
+    ~ In key_sep table ->
+    matcher compile pat = Some m ->
+    forall (reverse has_count : bool) (count : Z) (start : bytes) (fuel : nat),
+      let R := part_result dbs d table m reverse start in
+      (request_bound dbs d table m reverse start < fuel)%nat ->
+      exists mpages,
+        merged_keys compile fuel dbs d reverse table start pat has_count count = (mpages, Done) /\
+        Permutation (concat mpages) (concat (map R (seq 0 (length dbs)))) /\
+        (length mpages <= Nat.max 1 (request_bound dbs d table m reverse start))%nat.
+Proof. intros. now apply cluster_scan. Qed.
+Print Assumptions C13_cluster_scan.
+
+(* the merge itself, for arbitrary partition handlers that deliver a remaining list step by step, whatever
+   COUNT they are given *)
+Theorem C13_merged_scan :
+  forall (call : Z -> nat -> bytes -> outcome page) (rem : nat -> bytes -> list bytes),
+    (forall cnt p c, exists items next rem',
+        call cnt p c = Ok (items, next) /\ rem p c = items ++ rem' /\
+        (next = [] -> rem' = []) /\ (next <> [] -> items <> [] /\ rem' = rem p next)) ->
+    forall has_count count fuel ts,
+      (measure rem ts < fuel)%nat ->
+      exists mpages,
+        miterate call has_count count fuel ts = (mpages, Done) /\
+        Permutation (concat mpages) (remaining_all rem ts) /\
+        (length mpages <= Nat.max 1 (measure rem ts))%nat.
+Proof. exact merged_iterate. Qed.
+Print Assumptions C13_merged_scan.
+
 (* ---------- non-vacuity: a concrete store ---------- *)
 (* hash t:h = {a, ab, b}, hash t:h2 = {a}, set t:h = {a}; KV keys t:a t:ab t:b t2:a u:a *)
 Definition ex_db : list bytes :=
@@ -270,4 +313,13 @@ Proof. vm_compute. reflexivity. Qed.
 Example C13_ex_hscan_default_count :
   iterate_coll mini_compile 5 ex_db hash_type [116] [104] true false [] [] 0 =
   ([([[97]; [97;98]; [98]], [98]); ([], [])], Done).
+Proof. vm_compute. reflexivity. Qed.
+
+(* two partitions holding {t:a, t:b, u:a} and {t2:a, t:ab}: SCAN t: COUNT 2 over both *)
+Example C13_ex_cluster :
+  merged_keys mini_compile 5
+    [[encode_kv_key [116;58;97]; encode_kv_key [116;58;98]; encode_kv_key [117;58;97]];
+     [encode_kv_key [116;50;58;97]; encode_kv_key [116;58;97;98]]]
+    KV false [116] [] [] true 2 =
+  ([[[116;58;97]; [116;58;97;98]]; [[116;58;98]]; []], Done).
 Proof. vm_compute. reflexivity. Qed.
